@@ -42,19 +42,21 @@ const prop = "C03"
 
 // known-finding ids (see /verif/findings.d/c03.json)
 const (
-	fForElse    = "C03-vfor-on-else-member"                 // chosen v-else-if / v-else member carrying v-for renders nothing
-	fForIf      = "C03-vfor-on-if-member"                   // falsy v-if member carrying v-for: following v-else-if (and its v-else) dropped
-	fForSkip    = "C03-vfor-member-after-chosen-branch"     // v-else-if chosen; a later member with v-for runs as a loop of its own and lets the v-else render too
-	fForIfPre   = "C03-vfor-on-if-member-vpre-tail"         // truthy v-if member carrying v-for: a later member with v-pre is emitted too
-	fClassNot   = "C03-class-object-negation-no-fallback"   // :class="{k: !x}" has no negation workaround for non-bool / stack-only operands
-	fBuiltinVar = "C03-builtin-named-variable-next-to-call" // a variable named first / last / sum ... next to a template function call is read as the expr-lang built-in
-	fClassSne   = "C03-class-object-strict-inequality"      // :class="{k: a !== b}" leaves k out where v-if="a !== b" holds
-	fClassNil   = "C03-class-object-nil-adds-class"         // :class="{k: x}" adds k for nil / undefined x
-	fClassStr   = "C03-class-object-string-reparsed"        // :class="{k: x}" drops k for strings like "0", " "
-	fShowChain  = "C03-vshow-on-chain-member-ignored"       // v-show on an element that also carries v-if / v-else(-if) is ignored
+	fForElse     = "C03-vfor-on-else-member"                 // chosen v-else-if / v-else member carrying v-for renders nothing
+	fForIf       = "C03-vfor-on-if-member"                   // falsy v-if member carrying v-for: following v-else-if (and its v-else) dropped
+	fForSkip     = "C03-vfor-member-after-chosen-branch"     // v-else-if chosen; a later member with v-for runs as a loop of its own and lets the v-else render too
+	fForIfPre    = "C03-vfor-on-if-member-vpre-tail"         // truthy v-if member carrying v-for: a later member with v-pre is emitted too
+	fClassNot    = "C03-class-object-negation-no-fallback"   // :class="{k: !x}" has no negation workaround for non-bool / stack-only operands
+	fBuiltinVar  = "C03-builtin-named-variable-next-to-call" // a variable named first / last / sum ... next to a template function call is read as the expr-lang built-in
+	fClassSne    = "C03-class-object-strict-inequality"      // :class="{k: a !== b}" leaves k out where v-if="a !== b" holds
+	fNamedZero   = "C03-named-bool-string-zero-truthy"       // Flag(false) / Name("") of named bool / string types are truthy everywhere
+	fAttrOperand = "C03-bound-attr-nonpath-operand-unbound"  // :data-x="l[i]" / "m[key]" / "(x)" binds nothing
+	fClassNil    = "C03-class-object-nil-adds-class"         // :class="{k: x}" adds k for nil / undefined x
+	fClassStr    = "C03-class-object-string-reparsed"        // :class="{k: x}" drops k for strings like "0", " "
+	fShowChain   = "C03-vshow-on-chain-member-ignored"       // v-show on an element that also carries v-if / v-else(-if) is ignored
 )
 
-var allFindings = []string{fClassSne, fBuiltinVar, fClassNot, fForElse, fForIf, fForIfPre, fForSkip, fClassNil, fClassStr, fShowChain}
+var allFindings = []string{fClassSne, fNamedZero, fAttrOperand, fBuiltinVar, fClassNot, fForElse, fForIf, fForIfPre, fForSkip, fClassNil, fClassStr, fShowChain}
 
 func openFindings() map[string]bool {
 	f := kf.Load()
@@ -162,6 +164,7 @@ func classify(c Case) (bool, []string) {
 	add(st.slotTwice, "slot-used-twice-per-item")
 	add(st.preMember, "member-with-v-pre")
 	add(st.onceMember, "member-with-v-once")
+	add(st.forOnce, "chosen-member-with-v-for-and-v-once")
 	add(st.laterDeco, "unchosen-later-member-with-v-pre/v-once/v-for")
 	add(st.includes > 0, fmt.Sprintf("include(props<=%d)", st.maxProps))
 	add(st.probes > 0, "probe(v-show,:attr,:class)")
@@ -205,10 +208,15 @@ func TestProp(t *testing.T) {
 	shard, shards := run.Shard()
 
 	// ---- Family B: the truthiness table, exhaustive over vals.Scalars() + vals.Containers()
-	table := append(append(vals.Scalars(), vals.Containers()...), extraValues...)
+	table := append(append(append(vals.Scalars(), vals.Containers()...), extraValues...), namedValues...)
+	namedZeroOpen = open[fNamedZero]
 	ok := true
 	for i, v := range table {
 		if i%shards != shard {
+			continue
+		}
+		if open[fNamedZero] && namedZeroRegion(v) {
+			rec.Excluded(fNamedZero)
 			continue
 		}
 		c := TruthCase{Val: v}
@@ -239,7 +247,7 @@ func TestProp(t *testing.T) {
 		}
 	}
 	if ok {
-		rec.Exhaustive(fmt.Sprintf("truthiness table: %d values (every scalar kind and width, strings, nil, missing, pointers, slices, maps, structs) x %d positions (%d on the plain name, up to 8 for each of %d operand forms: paths, promoted fields of embedded structs, a loop variable shadowing a root variable of the opposite truthiness, variables named like template functions, booleans written as === / !== / == / != comparisons)", len(table), len(positions), basePositionCount, len(allForms())))
+		rec.Exhaustive(fmt.Sprintf("truthiness table: %d values (every scalar kind and width, strings, nil, missing, pointers, slices, maps, structs, values of named bool / string / int / float32 types and time.Duration and pointers to them) x %d positions (%d on the plain name, up to 8 for each of %d operand forms: paths, promoted fields of embedded structs, a loop variable shadowing a root variable of the opposite truthiness, variables named like template functions, booleans written as === / !== / == / != comparisons)", len(table), len(positions), basePositionCount, len(allForms())))
 	}
 
 	// ---- Family A: chain shapes x truth assignments x separators x siblings x placements x member decorations
